@@ -176,6 +176,7 @@ func runC04(run *Run, seed int64, sc c04Scn, rng *rand.Rand) (out []*c01Result, 
 	c.Net.OnPacket = append(c.Net.OnPacket, tap.onPacket)
 	c.Net.OnStream = append(c.Net.OnStream, tap.onStream)
 	left := map[string]bool{}
+	isReturn := map[*SimNode]bool{} // second lives of departed names: they may have to refute what is left of their first
 	mk := func(i int) (*SimNode, error) {
 		ip := ""
 		if sc.V6 {
@@ -252,7 +253,7 @@ func runC04(run *Run, seed int64, sc c04Scn, rng *rand.Rand) (out []*c01Result, 
 				continue
 			}
 			m := n.ML()
-			if h := m.GetHealthScore(); h != 0 {
+			if h := m.GetHealthScore(); h != 0 && !isReturn[n] {
 				fail("health", "%s health score = %d in a healthy cluster", n.Name, h)
 			}
 			v := m.VerifDump()
@@ -312,7 +313,7 @@ func runC04(run *Run, seed int64, sc c04Scn, rng *rand.Rand) (out []*c01Result, 
 			opTimes[i] = -1
 			live := []*SimNode{}
 			for _, n := range c.Nodes {
-				if !n.Stopped && !left[n.Name] {
+				if !n.Stopped && (!left[n.Name] || isReturn[n]) {
 					live = append(live, n)
 				}
 			}
